@@ -59,7 +59,7 @@ extern "C" void h_bind2_feature()
 extern "C" void h_bind2_request()
 {
     Bind2Request x; x.tag = vpSymStringCase(0, 2); x.csiInactive = vp_case_bool(1); x.carbonsEnable = vp_case_bool(2);
-    if (vp_case_bool(3)) { x.smEnable = SmEnable { vp_bool(), vp_u64() }; }
+    if (vp_case_bool(3)) { quint64 m = 0; if (vp_case_bool(5)) { m = vp_u64(); vp_assume(m > 0); } x.smEnable = SmEnable { vp_case_bool(4), m }; }   // resume / max>0 gate attributes: structural
     ROUNDTRIP(Bind2Request, x, y)
     vp_assert(y->tag == x.tag, "C01 Bind2Request.tag"); vp_assert(y->csiInactive == x.csiInactive, "C01 Bind2Request.csiInactive");
     vp_assert(y->carbonsEnable == x.carbonsEnable, "C01 Bind2Request.carbonsEnable");
@@ -118,7 +118,7 @@ extern "C" void h_sasl2_failure()
 }
 extern "C" void h_sasl2_continue()
 {
-    Sasl2::Continue x; x.additionalData = vp_case_bool(0) ? vpSymBytes(2) : QByteArray(); x.text = vpSymStringCase(1, 2);
+    Sasl2::Continue x; x.additionalData = vp_case_bool(0) ? vpSymBytesExact(2) : QByteArray(); x.text = vpSymStringCase(1, 2);
     unsigned n = 1 + vp_case_bool(2);       // validity predicate of the type: at least one task (XEP-0388)
     for (unsigned i = 0; i < 2; i++) if (i < n) x.tasks.push_back(vpSymString(2));
     ROUNDTRIP(Sasl2::Continue, x, y)
@@ -134,7 +134,7 @@ extern "C" void h_sasl2_abort()
 }
 extern "C" void h_sasl2_success()
 {
-    Sasl2::Success x; if (vp_case_bool(0)) x.additionalData = vpSymBytes(2); x.authorizationIdentifier = vpSymStringCase(1, 2);
+    Sasl2::Success x; if (vp_case_bool(0)) x.additionalData = vpSymBytesExact(2); x.authorizationIdentifier = vpSymStringCase(1, 2);
     if (vp_case_bool(2)) { x.smResumed = SmResumed { vp_u32(), vpSymString(1) }; }
     if (vp_case_bool(3)) { x.smFailed = SmFailed {}; }
     if (vp_case_bool(4)) { x.bound = Bind2Bound {}; }
@@ -149,7 +149,7 @@ extern "C" void h_sasl2_success()
 }
 extern "C" void h_sasl2_authenticate()
 {
-    Sasl2::Authenticate x; x.mechanism = vpSymString(2); x.initialResponse = vp_case_bool(0) ? vpSymBytes(2) : QByteArray();
+    Sasl2::Authenticate x; x.mechanism = vpSymString(2); x.initialResponse = vp_case_bool(0) ? vpSymBytesExact(2) : QByteArray();
     if (vp_case_bool(1)) { Bind2Request b; b.tag = vpSymStringCase(5, 1); b.csiInactive = vp_case_bool(6); x.bindRequest = b; }
     if (vp_case_bool(2)) { x.smResume = SmResume { vp_u32(), vpSymString(1) }; }
     if (vp_case_bool(3)) { x.tokenRequest = FastTokenRequest { vpSymString(1) }; }
